@@ -31,6 +31,8 @@ type PropCfg struct {
 	Trusted     []string `json:"trusted_base"`
 	Residue     []string `json:"residue"`
 	MinObls     int      `json:"min_obligations"`
+	Level       string   `json:"level,omitempty"`       // evidence level when it is not "proof"
+	Explanation string   `json:"explanation,omitempty"` // coverage.explanation for level "other"
 	Effects     *EffectCfg `json:"effects,omitempty"`
 }
 
@@ -92,6 +94,10 @@ func main() {
 
 	e, err := govc.Load(*repo, "github.com/rigochain/rigo-go", cfg.Pkgs, filepath.Join(*verif, "spec"))
 	ev := &Evidence{PropertyID: *prop, Tier: *tier, Seed: seed, Level: "proof"}
+	if cfg.Level != "" {
+		ev.Level = cfg.Level
+		ev.Coverage.Explanation = cfg.Explanation
+	}
 	ev.Coverage.CheckerCmd = fmt.Sprintf("bin/vcheck -p %s -tier %s", *prop, *tier)
 	var violations []Violation
 	addViolation := func(obl, text, detail string, res *govc.SolverResult) {
@@ -378,6 +384,7 @@ type Evidence struct {
 		VacuityChecks int              `json:"vacuity_checks"`
 		Bounded       []string         `json:"bounded"`
 		EffectObls    int              `json:"effect_obligations,omitempty"`
+		Explanation   string           `json:"explanation,omitempty"`
 	} `json:"coverage"`
 	Assumptions []string               `json:"assumptions"`
 	WallS       float64                `json:"wall_s"`
